@@ -42,7 +42,7 @@ func (l *listImpl) Size() int {
 }
 
 func (l *listImpl) Clone() Node {
-	l2 := &listImpl{}
+	l2 := &listBuilderImpl{}
 	for _, item := range l.items {
 		l2.items = append(l2.items, item.Clone())
 	}
